@@ -284,7 +284,29 @@ class MHistory:
     def step(self, integrity):
         d = self.d
         d.step_no += 1
-        d.settle_delivery()
+        # now and then the master's connection drops at one of the requests it makes while it handles what is pending
+        # (the k-th read under one of the trees it reads): the process dies on the ConnectionLoss - a new master starts -
+        # or it copes; either way what is published afterwards is judged as always
+        import kazoo.exceptions as _kx
+        pf_ = getattr(d.pf, 'p_read_fault', (0, 0))
+        d.read_fault, d.read_fault_fired = None, None
+        if self.rng.random() < (pf_[0] if d.srv.children(d.z.EVENTS) else pf_[1]):
+            d.read_fault = [self.rng.choice(['/placement', '/placement', '/servers', '/scheduled', '/server.presence', '/', '/']),
+                            self.rng.choice([1, 1, 2, 3, 5, 9])]
+        try:
+            d.settle_delivery()
+        except _kx.ConnectionLoss:
+            if not d.read_fault_fired:
+                raise
+            d.read_fault = None
+            self.ctx.count('master_died_on_a_connection_loss_while_handling_events')
+            d.ops.append(('connection_loss_then_restart', d.read_fault_fired[0], d.read_fault_fired[1]))
+            return self.start()
+        finally:
+            d.read_fault = None
+        if d.read_fault_fired:
+            self.ctx.count('master_survived_a_connection_loss_while_handling_events')
+            d.ops.append(('connection_loss_survived', d.read_fault_fired[0], d.read_fault_fired[1]))
         now = self.clock.peek()
         if integrity or now - getattr(self, 'last_integrity', -1e9) >= 30.0:
             self.last_integrity = now
